@@ -79,9 +79,15 @@ def WState.step (m : NsMap) (isDatatype : Str → Bool) (w : WState) : Ev → Ex
   | .attr q d =>
     if w.pending.isNone then .error (.serializer "Empty pending tag.") else
     -- is_xsi_type: a `str` value starting with "{" on xsi:type (or naming a datatype) is a QName
+    -- (a name goes through the prefix map; the Clark name of a builtin datatype whose namespace the map
+    -- does not serve gets the well-known prefix `xs`, which the writers bind on demand)
     let d := match d with
       | .prim (.str s) =>
-        if s.head? = some '{' && (q = xsiType || isDatatype s) then Data.prim (.qname s) else d
+        if s.head? = some '{' && (q = xsiType || isDatatype s) then
+          (if isDatatype s && (m.find? (fun pu => some pu.2 = targetUri s)).isNone then
+             Data.prim (.str ("xs:".toList ++ localName s))
+           else Data.prim (.qname s))
+        else d
       | _ => d
     match encodeData m d with
     | some (some s) => .ok { w with attrs := dictSet w.attrs q s }
